@@ -8,6 +8,7 @@ import ChythonModel.Proofs.C10HalfTrunc
 import ChythonModel.Proofs.C10PerceiveMain
 import ChythonModel.Proofs.C10Terminals
 import ChythonModel.Proofs.C10Ideal
+import ChythonModel.Proofs.C10PerceiveWF
 /-!
 # C10 — binary pack format: lossless round trip, stable published layout
 
@@ -486,8 +487,40 @@ theorem stereo_roundtrip_no_hypervalent (atoms : List PAtom) (g : GraphOK atoms)
   obtain ⟨p, hp⟩ := perceive_ok g
   exact ⟨p, hp, fun h hm rest => pack_unpack_full_aux atoms p hp h hm (keysDisjoint_of_noHyper g hn hp) rest⟩
 
+/-- the format-limit hypothesis `WF` with the PERCEIVED terminals follows from the limits on atoms and bonds alone (`AtomsWF`: non-empty,
+    ≤ 4095 atoms, `AtomOK`, `GraphOK`, ≤ 4095 marked bonds) once the marks sit on perceived units: the terminals the packer looks up exist
+    and are atom numbers of the molecule, hence ≤ 4095 -/
+theorem wf_from_atoms (atoms : List PAtom) (h : AtomsWF atoms) (p : Perceived) (hp : perceive atoms = .ok p)
+    (hm : MarksOK atoms (p.stereogenic.map (·.1))) : WF ⟨atoms, p.terminals⟩ :=
+  wf_perceived h hp hm
+
+/-- **cis/trans labels survive — final form**: ∀ molecule within the documented limits on atoms and bonds (`AtomsWF`) without a
+    hypervalent centre inside a chain of double bonds (`NoHyperDouble`): the perception succeeds and, if the marks sit on perceived
+    stereogenic double bonds, `unpack(pack(m))` (both complete, perception included) is `m` with every mark, whatever follows the pack. -/
+theorem stereo_roundtrip_molecule_level (atoms : List PAtom) (h : AtomsWF atoms) (hn : NoHyperDouble atoms) :
+    ∃ p, perceive atoms = .ok p ∧
+      (MarksOK atoms (p.stereogenic.map (·.1)) →
+        ∀ rest : List Nat, ∃ bytes, packFull atoms = .ok bytes ∧
+          unpackFull (bytes ++ rest) = .ok ⟨atoms, ctListOf p.terminals (firstSeen [] atoms), bytes.length⟩) := by
+  obtain ⟨p, hp⟩ := perceive_ok h.graph
+  exact ⟨p, hp, fun hm rest =>
+    pack_unpack_full_aux atoms p hp (wf_perceived h hp hm) hm (keysDisjoint_of_noHyper h.graph hn hp) rest⟩
+
 /-- `NoHyperDouble` is satisfiable by a molecule with a three-coordinate end atom (the iminium end of `exTriene`) -/
 example : NoHyperDouble exTriene := noHyperDoubleb_sound _ (by decide +kernel)
+
+/-- all hypotheses of `stereo_roundtrip_molecule_level` hold for the marked triene -/
+example : AtomsWF exTriene ∧ NoHyperDouble exTriene ∧
+    (∀ p, perceive exTriene = .ok p → MarksOK exTriene (p.stereogenic.map (·.1))) := by
+  have hw := wf_of_wfb ⟨exTriene, [(20, 20, 50), (50, 20, 50), (40, 20, 50), (30, 20, 50)]⟩ (by decide +kernel)
+  refine ⟨⟨hw.nonempty, hw.count, hw.atomsOK, hw.graph, hw.ctLimit⟩, noHyperDoubleb_sound _ (by decide +kernel), ?_⟩
+  intro p hp
+  have : perceive exTriene = .ok ⟨[[20, 30, 40, 50]], [([20, 30, 40, 50], 10, 60, none, some 70)],
+    [(20, 20, 50), (50, 20, 50), (40, 20, 50), (30, 20, 50)], [(20, 30, 40), (50, 30, 40)], []⟩ := by rfl
+  rw [this] at hp
+  simp only [Except.ok.injEq] at hp
+  subst hp
+  exact marksOKb_sound _ _ (by decide +kernel)
 
 /-- the hypotheses of `stereo_roundtrip_partial` are satisfiable with marks present -/
 example : ∀ atoms ∈ [exAlkene, exTriene], ∃ p, perceive atoms = .ok p ∧ WF ⟨atoms, p.terminals⟩ ∧
